@@ -322,12 +322,25 @@ def inline_single_return_calls(fn, model=None, cls=None):
     return fn
 
 
+def _always_returns(stmts):
+    if not stmts:
+        return False
+    last = stmts[-1]
+    if isinstance(last, (ast.Return, ast.Raise)):
+        return True
+    if isinstance(last, ast.If):
+        return _always_returns(last.body) and _always_returns(last.orelse)
+    return False
+
+
 def inline_nested_defs(fn):
-    """statement-level inlining of functions nested in fn (on a clone): a helper whose body is straight-line code (no loops, no
-    return but the last statement) and that is only ever called as a whole statement value (`x = h(..)`, `a, b = h(..)`,
+    """statement-level inlining of functions nested in fn (on a clone): a helper whose body is loop-free code ending in a
+    return on every path and that is only ever called as a whole statement value (`x = h(..)`, `a, b = h(..)`,
     `acc += h(..)`, `h(..)`, `return h(..)`) with plain positional / keyword arguments is replaced, at each call, by its body
     with its locals renamed; a returned tuple unpacked into a tuple of names becomes pairwise assignments.
     Helpers that do not fit stay as they are."""
+    if not any(isinstance(x, ast.FunctionDef) and x is not fn for x in ast.walk(fn)):
+        return fn
     new = clone_ast(fn)
     changed = True
     rounds = 0
@@ -340,13 +353,15 @@ def inline_nested_defs(fn):
             if h.decorator_list or a.vararg or a.kwarg or a.kwonlyargs or a.posonlyargs:
                 continue
             body = [s for s in h.body if not (isinstance(s, ast.Expr) and isinstance(s.value, ast.Constant))]
-            if not body or not isinstance(body[-1], ast.Return):
+            if not body or not _always_returns(body):
                 continue
             inner = [y for s in body for y in ast.walk(s)]
             if any(isinstance(y, (ast.For, ast.While, ast.FunctionDef, ast.Lambda, ast.Yield, ast.YieldFrom, ast.Global, ast.Nonlocal, ast.Try, ast.With)) for y in inner):
                 continue
-            if sum(1 for y in inner if isinstance(y, ast.Return)) != 1:
+            nret = sum(1 for y in inner if isinstance(y, ast.Return))
+            if nret > 4 or any(isinstance(y, ast.Return) and y.value is None for y in inner):
                 continue
+            single = nret == 1 and isinstance(body[-1], ast.Return)
             if any(isinstance(y, ast.Name) and y.id == h.name for y in inner):
                 continue
             params = [x.arg for x in a.args]
@@ -401,16 +416,30 @@ def inline_nested_defs(fn):
                 seq = []
                 for q in params:
                     seq.append(ast.copy_location(ast.Assign(targets=[ast.Name(id=pre + q, ctx=ast.Store())], value=clone_ast(bind[q])), st))
-                for s_ in body[:-1]:
-                    seq.append(ast.copy_location(Ren().visit(clone_ast(s_)), st))
-                ret = Ren().visit(clone_ast(body[-1].value)) if body[-1].value is not None else ast.Constant(value=None)
-                if isinstance(st, ast.Assign) and len(st.targets) == 1 and isinstance(st.targets[0], ast.Tuple) and isinstance(ret, ast.Tuple) \
-                        and len(ret.elts) == len(st.targets[0].elts) and all(isinstance(t, ast.Name) for t in st.targets[0].elts):
-                    for t, v in zip(st.targets[0].elts, ret.elts):
-                        seq.append(ast.copy_location(ast.Assign(targets=[t], value=v), st))
-                else:
-                    st.value = ret
-                    seq.append(st)
+
+                def emit(ret, st=st):
+                    """the call statement with the returned expression in place of the call"""
+                    if isinstance(st, ast.Assign) and len(st.targets) == 1 and isinstance(st.targets[0], ast.Tuple) and isinstance(ret, ast.Tuple) \
+                            and len(ret.elts) == len(st.targets[0].elts) and all(isinstance(t, ast.Name) for t in st.targets[0].elts):
+                        return [ast.copy_location(ast.Assign(targets=[clone_ast(t)], value=v), st) for t, v in zip(st.targets[0].elts, ret.elts)]
+                    st2 = clone_ast(st)
+                    st2.value = ret
+                    return [st2]
+
+                def conv(stmts):
+                    out_ = []
+                    for i_, s_ in enumerate(stmts):
+                        if isinstance(s_, ast.Return):
+                            return out_ + emit(Ren().visit(clone_ast(s_.value)))
+                        if isinstance(s_, ast.If) and any(isinstance(y, ast.Return) for y in ast.walk(s_)):
+                            rest = stmts[i_ + 1:]
+                            b = conv(s_.body + ([] if _always_returns(s_.body) else rest))
+                            o = conv(s_.orelse + ([] if _always_returns(s_.orelse) else rest))
+                            out_.append(ast.copy_location(ast.If(test=Ren().visit(clone_ast(s_.test)), body=b or [ast.Pass()], orelse=o), st))
+                            return out_
+                        out_.append(ast.copy_location(Ren().visit(clone_ast(s_)), st))
+                    return out_
+                seq += conv(body)
                 k = [i for i, x in enumerate(blk) if x is st][0]
                 blk[k:k + 1] = seq
             # drop the definition
